@@ -118,6 +118,16 @@ NoPrf == [sec |-> "absent", salt |-> "absent"]
 NoCose == [labels |-> <<>>, kty |-> 0, alg |-> 0, crv |-> 0, point |-> FALSE]
 Es256Cose == [labels |-> <<-3, -2, -1, 1, 3>>, kty |-> 2, alg |-> -7, crv |-> 1, point |-> TRUE]
 
+\* what authenticatorGetInfo reports (get_info.rs): a function of the configuration only
+NoInfo == [versions |-> <<>>, exts |-> <<>>, rk |-> FALSE, up |-> FALSE, uv |-> "absent", plat |-> FALSE, clientPin |-> "absent",
+           transports |-> <<>>, maxMsgSize |-> FALSE, pinProtocols |-> FALSE]
+InfoOf(cfg) == [versions |-> <<"FIDO_2_0", "U2F_V2">>,
+                exts |-> IF cfg.hmac = "off" THEN <<>> ELSE <<"prf">>,      \* only the unsigned prf extension is announced
+                rk |-> cfg.disc # "nondisc", up |-> cfg.upCap,
+                uv |-> CASE cfg.uvCap = "configured" -> "true" [] cfg.uvCap = "unconfigured" -> "false" [] OTHER -> "absent",
+                plat |-> FALSE, clientPin |-> "absent",
+                transports |-> <<"internal", "hybrid">>, maxMsgSize |-> FALSE, pinProtocols |-> FALSE]
+
 \* the part of an End event layer B predicts (the harness adds observation-only fields)
 EndErr(code) ==
     [ok |-> FALSE, err |-> code, werr |-> "none", flags |-> <<>>, ctr |-> NoCtr, cred |-> "none", user |-> "none",
@@ -125,6 +135,7 @@ EndErr(code) ==
      cose |-> NoCose, stored |-> NoCred, prfEnabled |-> "absent", prf1 |-> NoPrf, prf2 |-> NoPrf,
      \* observation-only fields: what the relying-party role reports about the bytes
      wf |-> TRUE, attid |-> "none", fresh |-> TRUE, keymatch |-> FALSE, fmt |-> "none", digest |-> "none",
+     info |-> NoInfo,
      client |-> [present |-> FALSE], leaks |-> <<>>]
 
 \* flag names in bit order, as the relying-party role lists them (BE and BS are always set by the library)
@@ -350,7 +361,7 @@ GaStep(cfg, cer, store, nnew) ==
 (* authenticatorGetInfo: one capability query of the store, then the response *)
 InfoOpStep(cfg, cer, store, nnew) ==
     CASE cer.pc = "begin" -> InfoStep(cfg, cer, store, nnew, "info.done")
-      [] cer.pc = "info.done" -> Ended(cer, store, nnew, [EndErr(0) EXCEPT !.ok = TRUE])
+      [] cer.pc = "info.done" -> Ended(cer, store, nnew, [EndErr(0) EXCEPT !.ok = TRUE, !.info = InfoOf(cfg)])
 
 (* U2F (u2f.rs): register saves a counter-bearing credential for (application, key handle) without any prompt;
    authenticate looks the key handle up under the application and signs with the caller's counter and presence byte *)
